@@ -460,7 +460,6 @@ func (m *Mint) MintTokens(mintTokensRequest nut04.PostMintBolt11Request) (cashu.
 			}
 
 			// mark quote as issued after signing the blinded messages
-			mintQuote.State = nut04.Issued
 			if err := m.db.UpdateMintQuoteState(mintQuote.Id, nut04.Issued); err != nil {
 				errmsg := fmt.Sprintf("error updating mint quote state: %v", err)
 				return cashu.BuildCashuError(errmsg, cashu.DBErrCode)
@@ -470,14 +469,15 @@ func (m *Mint) MintTokens(mintTokensRequest nut04.PostMintBolt11Request) (cashu.
 				return cashu.BuildCashuError(errmsg, cashu.DBErrCode)
 			}
 
+			mintQuote.State = nut04.Issued
 			jsonQuote, _ := json.Marshal(mintQuote)
 			m.publisher.Publish(BOLT11_MINT_QUOTE_TOPIC, jsonQuote)
 			return nil
 		}()
 
-		// update mint quote to previous state if there was an error
+		// update mint quote to previous state (paid) if there was an error
 		if err != nil {
-			if err := m.db.UpdateMintQuoteState(mintQuote.Id, mintQuote.State); err != nil {
+			if err := m.db.UpdateMintQuoteState(mintQuote.Id, nut04.Paid); err != nil {
 				return nil, err
 			}
 			return nil, err
